@@ -490,6 +490,16 @@ def program_equivalence(prog1, prog2, compare_params=True, atol=1e-6, rtol=0):
         name_mapping = {i: n.op.__class__.__name__ for i, n in enumerate(G.nodes())}
         nx.set_node_attributes(circuit[-1], name_mapping, name="name")
 
+        # post-selection values and dark counts of measurements are not in the parameter list
+        option_mapping = {
+            i: [
+                None if getattr(n.op, attr, None) is None else np.asarray(getattr(n.op, attr))
+                for attr in ("select", "dark_counts")
+            ]
+            for i, n in enumerate(G.nodes())
+        }
+        nx.set_node_attributes(circuit[-1], option_mapping, name="options")
+
     def node_match(n1, n2):
         """Returns True if both nodes have the same name and
         same parameters, within a certain tolerance"""
@@ -498,6 +508,16 @@ def program_equivalence(prog1, prog2, compare_params=True, atol=1e-6, rtol=0):
 
         if not (name_match and wire_match):
             return False
+
+        for o1, o2 in zip(n1["options"], n2["options"]):
+            if (o1 is None) != (o2 is None):
+                return False
+            if (
+                compare_params
+                and o1 is not None
+                and not (np.shape(o1) == np.shape(o2) and np.allclose(o1, o2, atol=atol, rtol=rtol))
+            ):
+                return False
 
         if compare_params:
             # compare parameter by parameter: they can be arrays of different shapes
